@@ -50,3 +50,11 @@ def is_true(c):
 def zbool(b):
     """kept for readability in specs: conditions may be python bools (concrete oracle) or z3 terms"""
     return b
+
+
+def tor(x):
+    """integer / real term -> double domain value (symbolic terms are lifted, python numbers stay concrete)"""
+    import z3 as _z3
+    if _z3.is_expr(x):
+        return lift(x)
+    return x
